@@ -419,12 +419,6 @@ func (w *World10) calls(caller int) []Call10 {
 	own := e18(map[int]int64{aU0: 20, aKC: 30, aKB: 10, aKD: 10, aKCC: 10, aKS: 10}[caller])
 	for _, to := range []int{aU1, aU2, caller} {
 		for _, sh := range []*big.Int{e18(1), own, new(big.Int).Add(own, big.NewInt(1))} {
-			if to == caller && sh.Cmp(own) == 0 {
-				// transferring one's whole delegation to oneself corrupts the caller's own distribution
-				// bookkeeping (stale copy written back, starting info lost): property C11's subject, and
-				// nobody else's assets are involved — left out here
-				continue
-			}
 			add(S, "transferShares", fmt.Sprintf("(CTransferShares 0 %d %s)", to, zb(sh)), true, nil, -1, nil, 0, v0, A(to), sh)
 		}
 	}
@@ -651,7 +645,7 @@ func (w *World10) one(rep *lib.Report, r *lib.Rand, sh shape, caller int, kind s
 	rp := case10{Shape: shapeNames[sh], Switch: sw.name + " " + strings.Join(entries, ","), Call: call}
 	fail := func(what, sig, detail string) {
 		rp.Detail = detail
-		for _, k := range []string{"C10:static-context-write", "C10:delegationRewards-unjournaled"} {
+		for _, k := range []string{"C10:static-context-write"} {
 			if strings.HasPrefix(sig, k) {
 				rep.Count("known_finding_occurrences:" + k)
 				known10[k]++
@@ -697,11 +691,7 @@ func (w *World10) one(rep *lib.Report, r *lib.Rand, sh shape, caller int, kind s
 	// ---- monitors ----
 	if !ok {
 		if d := lib.DiffDumps(dumpPre, c.DumpAll(ctx)); len(d) > 0 {
-			sig := "C10:failed-call-changed-store"
-			if call.Method == "delegationRewards" {
-				sig = "C10:delegationRewards-unjournaled:failed-call-changed-store"
-			}
-			fail("a failed precompile call changed the store", sig, strings.Join(d, "\n"))
+			fail("a failed precompile call changed the store", "C10:failed-call-changed-store", strings.Join(d, "\n"))
 		}
 	}
 	if disabled && ok {
@@ -713,12 +703,7 @@ func (w *World10) one(rep *lib.Report, r *lib.Rand, sh shape, caller int, kind s
 	if call.Write && static && ok {
 		fail("a state-changing precompile method succeeded inside a STATICCALL context (reached by a nested CALL)", "C10:static-context-write:"+call.Method, call.Method)
 	}
-	if !call.Write && call.Method == "delegationRewards" {
-		// the read-only method must not change anything at all (finding C09-1)
-		if d := lib.DiffDumps(dumpPre, c.DumpAll(ctx)); len(d) > 0 && ok {
-			fail("a read-only precompile method changed the store", "C10:delegationRewards-unjournaled:readonly-wrote", strings.Join(d, "\n"))
-		}
-	} else if !call.Write && ok {
+	if !call.Write && ok {
 		if d := lib.DiffDumps(dumpPre, c.DumpAll(ctx)); len(d) > 0 {
 			fail("a read-only precompile method changed the store", "C10:readonly-wrote:"+call.Method, strings.Join(d, "\n"))
 		}
